@@ -80,6 +80,28 @@ MUTANTS = {
                                 "        new_ranking, _ = tiebroken_ranking(\n            new_ranking, profile=profile, tiebreak=\"random\"\n        )",
                                 "        new_ranking = tuple(frozenset({c}) for s in new_ranking for c in sorted(s, key=lambda x: profile.candidates.index(x) if profile else 0))",
                                 "residual ties resolved by position in the candidate tuple"),
+    "random-k-minus-1": ("C03", "votekit/elections/transfers.py",
+                         "        min(int(fpv) - threshold, len(transferable_ballots)),", "        max(0, min(int(fpv) - threshold, len(transferable_ballots)) - 1),", "random transfer moves one ballot too few"),
+    "random-from-all": ("C03", "votekit/elections/transfers.py",
+                        "    transferable_ballots = [b for b in winner_ballots if b.ranking]\n", "    transferable_ballots = [b for b in winner_ballots if b.ranking is not None or b.weight > 0][:winner_index]\n", "random transfer draws from all of the winner's ballots incl. exhausted ones"),
+    "random-biased-prefix": ("C03", "votekit/elections/transfers.py",
+                             "    surplus_ballots = random.sample(\n        transferable_ballots,\n        min(int(fpv) - threshold, len(transferable_ballots)),\n    )",
+                             "    surplus_ballots = transferable_ballots[: min(int(fpv) - threshold, len(transferable_ballots))]", "random transfer takes a prefix instead of a uniform sample"),
+    "frac-float-value": ("C03", "votekit/elections/transfers.py",
+                         "    transfer_value = (fpv - threshold) / fpv\n", "    transfer_value = float(fpv - threshold) / float(fpv)\n", "fractional transfer value through float"),
+    "frac-keeps-winner-lower": ("C03", "votekit/elections/transfers.py",
+                                "            # remove winner from ballot\n            new_ranking = tuple(\n                [frozenset([c for c in s if c != winner]) for s in ballot.ranking]\n            )\n            new_ranking = tuple([s for s in new_ranking if len(s) != 0])\n\n            transfered_ballots[i]",
+                                "            # remove winner from ballot\n            new_ranking = tuple(\n                [frozenset([c for c in s if c != winner]) for s in ballot.ranking]\n            ) if ballot.ranking[0] == {winner} else ballot.ranking\n            new_ranking = tuple([s for s in new_ranking if len(s) != 0])\n\n            transfered_ballots[i]",
+                                "fractional transfer leaves the winner on ballots it does not lead"),
+    "simul-drop-double-elected": ("C07", "votekit/elections/election_types/ranking/stv.py",
+                                  "        cleaned_ballots = remove_cand(\n            [c for s in elected for c in s],\n            tuple([b for b in new_ballots if b.ranking]),\n        )",
+                                  "        cleaned_ballots = remove_cand(\n            [c for s in elected for c in s],\n            tuple([b for b in new_ballots if b.ranking and list(b.ranking[0])[0] not in [c for s in elected for c in s]]),\n        )",
+                                  "simultaneous election: surplus ballots whose next choice was elected in the same round are dropped instead of moving on"),
+    "transfer-half": ("C07", "votekit/elections/transfers.py",
+                      "    transfer_value = (fpv - threshold) / fpv\n", "    transfer_value = (fpv - threshold) / fpv / 2\n", "fractional transfer passes on half the surplus"),
+    "elim-second-lowest": ("C02", "votekit/elections/election_types/ranking/stv.py",
+                           "            lowest_fpv_cands = prev_state.remaining[-1]\n", "            lowest_fpv_cands = prev_state.remaining[-2] if len(prev_state.remaining) > 2 else prev_state.remaining[-1]\n",
+                           "eliminates the second-lowest group when three or more groups remain"),
 }
 
 
